@@ -2,7 +2,7 @@
    Statements only; proofs in RebuildProofs.v. *)
 From Coq Require Import QArith.
 From HS Require Import Prelude Cov Map Spec Ops Spec2 Params AtFold MapProofs UpdateProofs HistoryProofs
-     LayoutProofs AccountProofs OpsProofs RebuildProofs Exec Exec2 ExecProofs.
+     LayoutProofs AccountProofs OpsProofs RebuildProofs FracdetProofs Exec Exec2 ExecProofs.
 Open Scope Z_scope.
 
 Section C15.
@@ -29,6 +29,25 @@ Theorem C15_degrade_of_upgrade_is_identity :
     read V (p_dv P) (degrade2 V V red r (blank m) (upgrade V r m) wsp) q = read V (p_dv P) m q.
 Proof. exact (degrade_upgrade_read P). Qed.
 
+(* the fractional-detection map at any permitted resolution is exactly the number of valid
+   children of each pixel (over the number of children), and at the coverage resolution it
+   coincides with the coverage-fraction map *)
+Theorem C15_fracdet_is_the_fraction_of_valid_children :
+  forall (m : smap V) r q, wf P m -> 0 < r -> nfine m mod r = 0 -> 0 <= q < npix V m / r ->
+    read Z 0 (fracdet_map P m r) q = d_group_count V (p_valid P) (p_dv P) (abs V (p_dv P) m) r q.
+Proof. exact (fracdet_read P). Qed.
+
+Theorem C15_fracdet_at_coverage_resolution_is_the_coverage_map :
+  forall (m : smap V) c, wf P m -> 0 <= c < ncov V m ->
+    read Z 0 (fracdet_map P m (nfine m)) c = znth 0 (coverage_counts V (p_valid P) m) c.
+Proof.
+  intros m c W Hc. pose proof (wf_nf P m W) as Hnf.
+  assert (Hms : nfine m mod nfine m = 0) by (apply Z.mod_same; lia).
+  rewrite (fracdet_read P m (nfine m) c W Hnf Hms).
+  - rewrite (coverage_counts_spec P m c W Hc). reflexivity.
+  - unfold Map.npix. rewrite Z.div_mul by lia. exact Hc.
+Qed.
+
 End C15.
 
 Example C15_hypotheses_satisfiable :
@@ -47,4 +66,6 @@ Qed.
 Print Assumptions C15_upgrade_replicates.
 Print Assumptions C15_upgrade_keeps_layout.
 Print Assumptions C15_degrade_of_upgrade_is_identity.
+Print Assumptions C15_fracdet_is_the_fraction_of_valid_children.
+Print Assumptions C15_fracdet_at_coverage_resolution_is_the_coverage_map.
 Print Assumptions C15_hypotheses_satisfiable.
